@@ -397,7 +397,21 @@ func (s rapidSrc) Range(lo, hi int) int {
 	return rapid.IntRange(lo, hi).Draw(s.t, "r")
 }
 func (s rapidSrc) Bool() bool        { return rapid.Bool().Draw(s.t, "b") }
-func (s rapidSrc) Prob(pct int) bool { return rapid.IntRange(0, 99).Draw(s.t, "p") < pct }
+// Prob is true with (close to) pct percent.  rapid's integer generators favour
+// small values, which would make small percentages far too likely; the drawn word
+// is therefore mixed (a bijection) before it is reduced.  The offset makes the
+// fully shrunk draw (0) map to 99, i.e. to "false".
+func (s rapidSrc) Prob(pct int) bool {
+	u := rapid.Uint64().Draw(s.t, "p")
+	return int((mix64(u)-mix64(0)+99)%100) < pct
+}
+
+func mix64(x uint64) uint64 {
+	x += 0x9e3779b97f4a7c15
+	x = (x ^ (x >> 30)) * 0xbf58476d1ce4e5b9
+	x = (x ^ (x >> 27)) * 0x94d049bb133111eb
+	return x ^ (x >> 31)
+}
 func (s rapidSrc) Int32() int32      { return rapid.Int32().Draw(s.t, "i32") }
 func (s rapidSrc) Int64() int64      { return rapid.Int64().Draw(s.t, "i64") }
 func (s rapidSrc) Str(alphabet []string, lo, hi int) string {
